@@ -262,6 +262,11 @@ SEQ_VARIANTS = {
 }
 
 
+def _dump(t):
+    v = getattr(t, 'value', t)
+    return (getattr(t, 'name', None), [_dump(c) for c in v] if isinstance(v, list) else v)
+
+
 def sequence_case(ctx, rng, variant=None, smart=None):
     """an LL(1) grammar written with the sequence template; membership is decided by a regular expression over the
     token string"""
@@ -290,7 +295,7 @@ def sequence_case(ctx, rng, variant=None, smart=None):
         member = re.fullmatch(member_re, "".join(toks)) is not None
         case = {"sequence_variant": variant, "smart": smart, "tokens": toks}
         try:
-            parser.parse(" ".join(toks), do_cleanup=False)
+            tree = parser.parse(" ".join(toks), do_cleanup=False)
             accepted = True
         except llparser.ParsingError:
             accepted = False
@@ -298,6 +303,25 @@ def sequence_case(ctx, rng, variant=None, smart=None):
             ctx.violation("sentence-raises-exception" if member else "non-sentence-raises-other-exception",
                           {"type": type(err).__name__, "msg": str(err)[:100], "smart": smart}, case)
             continue
+        if accepted and member:
+            # the caller edits the tree it was given (the documented clean-up, or its own pruning) and parses the very
+            # same text again: a derivation tree again - THE tree of this sentence
+            before = _dump(tree)
+            try:
+                if len(toks) % 2:
+                    parser.cleanup(tree)
+                else:
+                    tree.value = []
+                again = _dump(parser.parse(" ".join(toks), do_cleanup=False))
+            except Exception as err:
+                ctx.violation("sentence-raises-exception", {"type": type(err).__name__, "msg": str(err)[:100],
+                                                             "smart": smart, "second_parse": True}, case)
+                continue
+            ctx.count("sentences_parsed_again_after_the_caller_edited_the_first_tree")
+            if again != before:
+                ctx.violation("tree-of-a-sentence-differs-when-it-is-parsed-again",
+                              {"smart": smart, "first": repr(before)[:200], "again": repr(again)[:200]}, case)
+                continue
         ctx.count("sequence_template_decisions")
         if accepted != member:
             ctx.violation("conflict-free-parser-rejects-sentence" if member else "conflict-free-parser-accepts-non-sentence",
@@ -352,8 +376,67 @@ def template_options_case(ctx, rng, key=None):
                           {"smart": smart, "tokens": toks, "template": kind, "allow_final_delimiter": final}, case)
 
 
+_WORKER = """
+import sys, pickle, json
+sys.path.insert(0, %r)
+import vf
+vf.use_repo()
+from ak import llparser
+parser = pickle.loads(sys.stdin.buffer.read())
+out = []
+for text in %r:
+    try:
+        out.append(repr(parser.parse(text)))
+    except llparser.ParsingError:
+        out.append("ParsingError")
+    except Exception as err:
+        out.append("raises " + type(err).__name__)
+print(json.dumps(out))
+"""
+
+
+def pickled_parser_case(ctx):
+    """a parser built once and kept in a cache file is used by another process (a worker started later, with its own
+    hash seed): it accepts what it accepted here and gives the same values"""
+    import json
+    import os
+    import pickle
+    import subprocess
+    import sys
+    from ak.llparser import ListProds, MapProds
+    ctx.evaluated()
+    cfg = llmon.TOKCFGS[0]
+    parser = llparser.LLParser(cfg.tokenizer_str, productions={
+        'E': [('L',), ('M',)], 'L': ListProds('d', 'I', 'c', 'd'), 'I': [('a',), ('b',), ('L',)],
+        'M': MapProds('b', 'a', 'c', 'I', 'a', 'b')}, **cfg.kwargs)
+    texts = ["d d", "d a c b d", "d a c d a d c d", "b a c a b", "b a c d b d a a c b b", "d a a d", "b a b", "a"]
+    here = []
+    for text in texts:
+        try:
+            here.append(repr(parser.parse(text)))
+        except llparser.ParsingError:
+            here.append("ParsingError")
+        except Exception as err:
+            here.append("raises " + type(err).__name__)
+    case = {"pickled_parser": True}
+    try:
+        blob = pickle.dumps(parser)
+        r = subprocess.run([sys.executable, "-c", _WORKER % (vf.VERIF, texts)], input=blob, capture_output=True, timeout=120,
+                           env=dict(os.environ, PYTHONHASHSEED=str(1 + ctx.shard)))
+        there = json.loads(r.stdout.decode().strip().splitlines()[-1])
+    except Exception as err:
+        ctx.inconclusive_note(("the worker with the pickled parser gave no result: %r" % err)[:200])
+        return
+    ctx.count("parsers_pickled_here_and_used_by_a_process_with_another_hash_seed")
+    if there != here:
+        k = next(i for i, (a, b) in enumerate(zip(here, there)) if a != b)
+        ctx.violation("sentence-raises-exception" if there[k].startswith("raises") else "conflict-free-parser-rejects-sentence",
+                      {"text": texts[k], "here": here[k][:120], "in_the_worker": there[k][:120], "pickled_parser": True}, case)
+
+
 def run_shard(ctx):
     mon = llmon.ParseMonitor()
+    pickled_parser_case(ctx)
     try:
         for i in range(ctx.cases):
             rng = ctx.rng(i)
@@ -386,6 +469,9 @@ def run_shard(ctx):
 
 
 def replay(ctx, case):
+    if case.get("pickled_parser"):
+        pickled_parser_case(ctx)
+        return
     if case.get("template_options"):
         import random
         for k in range(60):
